@@ -16,7 +16,11 @@
 //     follower is behind the leader's ack, the leader reset when the follower is ahead of the leader;
 //   - Sync followed by Queue().GC() from the expiry ticker (also generated separately);
 //   - StopConsumerGroup only for a group that IsEmpty() (partition.IsExpire), re-creation by
-//     name afterwards (BuildReplicaForLeader on the next write stream), reopen = Close + NewFanOutQueue.
+//     name afterwards (BuildReplicaForLeader on the next write stream), reopen = Close + NewFanOutQueue;
+//   - pairs (pair_test.go): one operation each of two different roles of one group - consumer
+//     (Consume / SetConsumedSeq: the replica loop), acker (Ack: family flush callback, follower
+//     answer), ticker (Sync+GC), appender (Put) - the second one started inside a meta-page store
+//     of the first; only pairs both of whose sequential orders keep ack <= consumed <= appended.
 package c06
 
 import (
@@ -147,6 +151,8 @@ type world struct {
 	rolled   bool // two data page files existed at some GC
 	ntGC     bool
 	ntReopen bool
+	ntPair   bool // some pair step really interleaved (the nested operation started inside the first one)
+	pairTick bool // the current step was a pair with a Sync: the queue ack may follow an ack of this very step
 }
 
 func (w *world) logf(format string, args ...any) {
@@ -289,6 +295,9 @@ func (w *world) check(where string) {
 			w.fatalf("%s: queue acknowledged position moved backwards %d -> %d without an index reset", where, w.prevQAck, qa)
 		}
 		for n, a := range w.prevAcks {
+			if w.pairTick {
+				break // checked against the two sequential orders by the pair step, and against the present acks below
+			}
 			if qa > a {
 				w.fatalf("%s: queue acknowledged position moved %d -> %d, beyond the acknowledged position %d of existing group %s",
 					where, w.prevQAck, qa, a, n)
@@ -359,9 +368,18 @@ func (w *world) check(where string) {
 		w.fatalf("%s: Get(%d) succeeds beyond the appended position %d", where, app+1, app)
 	}
 
+	if w.pairTick && qa != w.prevQAck && !w.resetNow {
+		for n, a := range acks { // group acks only grow inside a pair step
+			if qa > a {
+				w.fatalf("%s: queue acknowledged position moved %d -> %d, beyond the acknowledged position %d of existing group %s",
+					where, w.prevQAck, qa, a, n)
+			}
+		}
+	}
 	w.prevQAck = qa
 	w.prevAcks = acks
 	w.resetNow = false
+	w.pairTick = false
 }
 
 // ---- operations --------------------------------------------------------------------------------
@@ -617,14 +635,20 @@ func (w *world) knownShape(g *grp) bool {
 // the acknowledged position is raised to the queue's ("if queue ack > consume group ack, need
 // reset use queue ack"). The consumed position must then not be below it; a tree that lifts it
 // together with the ack is accepted as well as one that can never get there.
-func (w *world) attach(g *grp, h queue.ConsumerGroup) {
+func (w *world) attach(g *grp, h queue.ConsumerGroup, where string) {
 	g.h, g.open, g.paused = h, true, false
+	c0, a0 := g.consumed, g.ack
 	if g.ack < w.qack {
 		g.ack = w.qack
 		w.class("attach-ack-raised-to-queue-ack")
 	}
 	if c := h.ConsumedSeq(); g.consumed < g.ack && c == g.ack {
 		g.consumed = c
+	}
+	if c, a := h.ConsumedSeq(), h.AcknowledgedSeq(); c != g.consumed || a != g.ack {
+		w.logf("%s: group %s loaded from its meta page", where, g.name)
+		w.fatalf("%s: positions did not survive: group %s comes back at consumed=%d acknowledged=%d, it was at consumed=%d acknowledged=%d (queue ack %d; expected now consumed=%d acknowledged=%d)",
+			where, g.name, c, a, c0, a0, w.qack, g.consumed, g.ack)
 	}
 }
 
@@ -648,7 +672,7 @@ func (w *world) opCreateGroup() {
 		if err != nil {
 			w.fatalf("GetOrCreateConsumerGroup(%s): %v", name, err)
 		}
-		w.attach(g, h)
+		w.attach(g, h, "re-create stopped group")
 		w.class("recreate-stopped-group")
 		w.logf("createGroup %s (stopped before) -> consumed=%d ack=%d", name, g.consumed, g.ack)
 		return
@@ -745,7 +769,7 @@ func (w *world) opReopen() {
 		if err != nil {
 			w.fatalf("GetOrCreateConsumerGroup(%s) after reopen: %v", n, err)
 		}
-		w.attach(g, h)
+		w.attach(g, h, "reopen")
 		if g.consumed >= 0 || g.ack >= 0 {
 			nonInitial = true
 		}
@@ -916,6 +940,8 @@ func runHistory(t *rapid.T, test string, thorough, heavy bool) {
 		"pause":       step(w.opPause),
 		"reopen":      step(w.opReopen),
 		"reset":       step(w.opReset),
+		"pair":        step(w.opPair),
+		"pair2":       step(w.opPair),
 		"":            step(func() { w.check("after step") }),
 	}
 	if heavy {
@@ -974,7 +1000,7 @@ func runHistory(t *rapid.T, test string, thorough, heavy bool) {
 	}
 	ev.Case(test, strings.Join(w.ops, ";"), (w.ntGC || w.ntReopen) && heavyNT, nil,
 		map[string]any{"history": w.ops, "final": w.modelString(),
-			"gc_removed_page_with_different_acks": w.ntGC, "reopen_with_positions": w.ntReopen})
+			"gc_removed_page_with_different_acks": w.ntGC, "reopen_with_positions": w.ntReopen, "interleaved_pair": w.ntPair})
 }
 
 func (w *world) anyKnownShape() bool {
@@ -989,6 +1015,8 @@ func (w *world) anyKnownShape() bool {
 // TestGroupHistory: the rapid state machine over small messages (quick and thorough tier).
 func TestGroupHistory(t *testing.T) {
 	thorough := os.Getenv("VERIF_TIER") == "thorough"
+	installPages()
+	defer uninstallPages()
 	rapid.Check(t, func(t *rapid.T) { runHistory(t, "TestGroupHistory", thorough, false) })
 }
 
@@ -999,6 +1027,8 @@ func TestGroupHistoryRollOver(t *testing.T) {
 	if tier := os.Getenv("VERIF_TIER"); (tier == "" || tier == "quick") && os.Getenv("C06_ROLLOVER") == "" {
 		t.Skip("thorough tier only (set C06_ROLLOVER=1 to run by hand)")
 	}
+	installPages()
+	defer uninstallPages()
 	rapid.Check(t, func(t *rapid.T) { runHistory(t, "TestGroupHistoryRollOver", true, true) })
 }
 
